@@ -24,12 +24,13 @@ scalar Money
 interface Node { id: ID! }
 type Item implements Node { id: ID! price: Money label: String @tag }
 type Item2 implements Node { id: ID! price: Money label: String @tag }
-type Query { item: Node value: Int echo(m: Money): String nodef: Int }
+type Query { item: Node item2: Node value: Int echo(m: Money): String nodef: Int }
 type Subscription { tick: Int }
 """
 KINDS = ["resolvers", "type_resolver", "scalar", "directive", "subscription"]
 PROBES = [
     ("q", "{ value nodef item { __typename id ... on Item { price label } ... on Item2 { price label } } echo(m: 5) }"),
+    ("q", "{ item2 { __typename id } item { __typename } }"),
     ("q", "query($m: Money) { echo(m: $m) }"),
     ("q", "{ __type(name: \"Money\") { name kind } __schema { subscriptionType { name } } }"),
     ("s", "subscription { tick }"),
@@ -44,17 +45,28 @@ def register(i, kinds):
         async def r_value(p, a, c, info):
             return 100 + i
 
-        @Resolver("Query.item", schema_name=name)
+        want = "Item" if i % 2 else "Item2"
+
+        def field_tr(result, ctx, info, abstract_type):
+            return want
+
+        # three ways of naming the runtime type, rotating over the bundles: field-level type_resolver (i % 3 == 0),
+        # @TypeResolver on the interface (i % 3 == 1, registered by the "type_resolver" kind), `_typename` in the value (i % 3 == 2)
+        @Resolver("Query.item", schema_name=name, **({"type_resolver": field_tr} if i % 3 == 0 else {}))
         async def r_item(p, a, c, info):
-            return {"id": i, "price": 5, "label": "L"}
+            return {"id": i, "price": 5, "label": "L", "_typename": want}
+
+        @Resolver("Query.item2", schema_name=name)
+        async def r_item2(p, a, c, info):
+            return {"id": 10 + i, "price": 6, "label": "M", "_typename": "Item2" if i % 2 else "Item"}
 
         @Resolver("Query.echo", schema_name=name)
         async def r_echo(p, a, c, info):
             return "b%d:%r" % (i, a)
-    if "type_resolver" in kinds:
+    if "type_resolver" in kinds and i % 3 == 1:
         @TypeResolver("Node", schema_name=name)
         def tr(result, ctx, info, abstract_type):
-            return "Item" if i % 2 else "Item2"
+            return "Item" if (result["id"] < 10) == bool(i % 2) else "Item2"
     if "scalar" in kinds:
         @Scalar("Money", schema_name=name)
         class Money:
